@@ -164,7 +164,7 @@ func runSched(property string, u fw.Unit, scenarios []schedScenario) fw.Result {
 		if j > len(items) {
 			j = len(items)
 		}
-		res.Leftover = append(res.Leftover, fw.Unit{Check: u.Check, Kind: "sched", Tier: u.Tier, Spec: fw.Spec(schedSpec{
+		res.Leftover = append(res.Leftover, fw.Unit{Check: u.Check, Kind: u.Kind, Tier: u.Tier, Spec: fw.Spec(schedSpec{
 			Scn: sp.Scn, Name: sp.Name, Items: items[i:j], Bound: sp.Bound, ForcedCost: sp.ForcedCost, Budget: sp.Budget})})
 	}
 	return res
